@@ -22,7 +22,8 @@ BOUND = [0, 1, 23, 24, 255, 256, 65535, 65536, 2 ** 32 - 1, 2 ** 32, 2 ** 64 - 1
 TRICKY = ["yes", "no", "null", "~", "1e3", "0x10", "017", "1_000", "2024-01-01", "1:30", "=", "<<", "- a", "a: b",
           "#x", " lead", "trail ", "'q'", '"dq"', "tab\there", "multi\nline", "\\", "!tag", "&anc", "*ali", "%dir",
           "@at", "`bt", "{}", "[]", "true", "False", ".inf", ".nan", "0.5", "+1", "-0", "0b11", "é", "ß", "中", "😀",
-          " ", " "]
+          " ", " ", "6ba7b810-9dad-11d1-80b4-00c04fd430c8", "0123456789abcdef0123456789abcdef",
+          "urn:uuid:6ba7b811-9dad-11d1-80b4-00c04fd430c8"]
 
 
 def rint(r, neg=False):
